@@ -88,7 +88,9 @@ ArithOps == {"add_sat", "div_sat", "midpoint", "gcd", "lcm", "abs", "idiv", "ipo
 \* grouped events: every single-type binary function on one pair ("bin"), the mixed-type ones ("mix")
 \* and saturate_cast / in_range of one value to every target type ("casts": to = <<rw, rs, cast result, in_range>>...)
 GroupOps == {"bin", "mix", "casts"}
-AllOps == BitOps \cup ArithOps \cup GroupOps
+\* "crash": under VH_DOMAIN_ONLY (sanitizer runs) the driver makes in-domain calls only; a call group that was stopped
+\* by a sanitizer, a signal or the watchdog is logged as one crash event - always a deviation
+AllOps == BitOps \cup ArithOps \cup GroupOps \cup {"crash"}
 
 \* the logged arguments are well-formed values of their types (anything else is a harness error)
 WellFormed(ev) ==
@@ -222,7 +224,8 @@ RECURSIVE GroupBadR(_, _)
 GroupBadR(subs, i) == IF i > Len(subs) THEN "" ELSE ArithBad(subs[i]) \o GroupBadR(subs, i + 1)
 
 Bad(ev) ==
-    CASE ev.op = "bits" -> BitsBad(ev)
+    CASE ev.op = "crash" -> "+trap_crash_" \o ev.of
+      [] ev.op = "bits" -> BitsBad(ev)
       [] ev.op = "rot" -> RotBad(ev)
       [] ev.op = "bitpos" -> BitposBad(ev)
       [] ev.op = "hton" -> HtonBad(ev)
@@ -234,7 +237,8 @@ Bad(ev) ==
 \* expected values for the deviation report (a record of JSON-able values)
 ExpectedRec(ev) ==
     LET w == ev.w b == Word(ev.x, w) IN
-    CASE ev.op = "bits" -> [popcount |-> Popcount(b), clz |-> Countl(b, 0), clo |-> Countl(b, 1), ctz |-> Countr(b, 0),
+    CASE ev.op = "crash" -> [ret |-> "the call returns"]
+      [] ev.op = "bits" -> [popcount |-> Popcount(b), clz |-> Countl(b, 0), clo |-> Countl(b, 1), ctz |-> Countr(b, 0),
                             cto |-> Countr(b, 1), width |-> BitWidth(b), single |-> HasSingleBit(b),
                             floor |-> Unword(BitFloor(b), 0),
                             ceil |-> IF BitCeilDefined(b) THEN Unword(BitCeil(b), 0) ELSE Unword(Zeros(w), 0)]
